@@ -457,6 +457,12 @@ def run(ctx):
     data_ty = "data::Data"
     dctor = [k for k, f in prog.fns.items() if ((f.get("impl") or {}).get("self") or "") == data_ty and not (f.get("impl") or {}).get("trait")
              and f.get("output") in ("Self", data_ty) and f.get("inputs") == ["&config::Config"]]
+    if len(dctor) > 1:
+        # private stages with the constructor's signature: the constructor is the one called from outside the type
+        cg5 = prog.callgraph()
+        outer5 = [k for k in dctor if any(k in cg5[c] for c in prog.fns if ((prog.fns[c].get("impl") or {}).get("self") or "") != data_ty)]
+        if len(outer5) == 1:
+            dctor = outer5
     if len(dctor) != 1:
         r5.undecidable("load", "Data's constructor fn(&Config) -> Data not found uniquely: %s" % dctor)
     else:
@@ -473,6 +479,8 @@ def run(ctx):
                                                    for bl in prog.fns[k]["mir"]["blocks"] for st in bl["stmts"])]
             common.verbatim_loads(r5, prog, builders5 or [dctor[0]], own, maps, "table")
     r5.floor(3, "three tables")
+    nacc = common.pure_table_accessors(r5, prog, data_ty)
+    r5.floor(3 + min(nacc, 2), "three tables + the table accessors")
 
 
 def classify_source(prog, p):
